@@ -24,9 +24,18 @@ CHECKS = {
  "C07": ("differential monitor: library Parse versus an independent reference GeoJSON reader over grammar documents, per-defect structural mutants and byte-level corruptions",
          "Every text is classified by the reference reader strictly by the wording of the property; well-formed texts must be accepted and decode to the same type/nesting/order/x,y, texts with a listed defect must be rejected with an error and no object, anything else is counted as unclassified and not asserted. Known finding F11 is matched narrowly.",
          "Trusted: internal/refjson (encoding/json based).", "6 C07"),
+ "C09": ("algebraic-law monitor (oracle-free) over ordered pairs of all 12 object kinds, with tracer attribution of failed consequences",
+         "Duality, symmetry, contains=>intersects and rect-covers, intersects=>rects-meet, self-containment, and the transparency of Feature / Rect / SimplePoint / leaf objects are asserted literally on every generated pair (144 kind combinations, nested collections, constructor and Parse builds). Circle pairs are asserted only outside a band where its two code paths may legitimately differ (counted inconclusive). Failures are attributed to known findings F4/F5/F15 narrowly or reported.",
+         "Trusted: nothing beyond the laws themselves; the tracer hook is used only to attribute.", "6 C09"),
+ "C10": ("reference-model monitor: brute-force composition oracle over Children() using the library's own leaf-against-leaf answers",
+         "Intersects, Contains, Within, Empty, Rect, NumPoints, child order and child Search (set equality, early stop) of collections with 0..200 children are compared with the statement's definitions evaluated by brute force; built by constructors and by Parse under child-index thresholds {0,1,count,count+1,64}; indexed and unindexed builds are compared directly.",
+         "Trusted: leaf-against-leaf predicate answers of the library (judged by C01-C03). Known finding F15 is matched when a Feature wraps a collection.", "6 C10"),
  "C11": ("reference-model monitor: direct min/max, range and emptiness computation over a harness-side object model, constructors and Parse paths",
          "Rect, Center, Valid and Empty of every object and nested object of generated trees (all kinds, special float values, empties, single-child collections, exhaustive short sequences) are compared with values computed directly from the model's positions. Known findings F20/F21 are matched by narrow predicates.",
          "Trusted: the harness' own model tree (props/model.go).", "6 C11"),
+ "C12": ("metamorphic monitor (oracle-free): answers before and after exact transformations and re-encodings must be equal; exact oracle and tracer only to attribute a difference",
+         "For each contact-biased valid pair the four predicate answers are recomputed under 12 exact affine maps of both shapes, under Move(), every rotation of each ring's start vertex, reversal, hole re-ordering and closing-vertex toggling; any change is a violation unless the wrong side is explained by the listed decision sites of F4/F5 or by F24.",
+         "Trusted: exactness of the transformations on the lattice domain (inexact ones are skipped and counted).", "6 C12"),
  "C17": ("output monitor: JSON validity, structural decoding, append contract with aliasing sentinels over objects from every constructor and special floats",
          "Every object and nested object built through all public constructors (NaN/Inf/-0/extreme ordinates, hostile member strings) and through Parse is serialised four ways; outputs must agree, AppendJSON must append without touching the prefix (checked with spare capacity and an aliasing slice), the bytes must be valid JSON of the right type and nesting depth, ordinates must round-trip bit-exactly and non-finite ones must be null.",
          "Trusted: encoding/json as JSON validator/decoder.", "6 C17"),
